@@ -7,5 +7,11 @@ TFmts == StrUpTo(FAlpha, 7)
 MCArgVals == {<<>>, <<120>>, <<LB, RB>>, <<LB>>, <<RB, LB>>}
 MCItemVals == {[t |-> "s", v |-> <<>>], [t |-> "s", v |-> <<A, 98>>], [t |-> "s", v |-> <<LB, RB>>],
                [t |-> "s", v |-> <<32>>],
-               [t |-> "i", v |-> 0], [t |-> "i", v |-> 7], [t |-> "i", v |-> -12], [t |-> "i", v |-> 1000]}
+               [t |-> "i", v |-> 0], [t |-> "i", v |-> 7], [t |-> "i", v |-> -12], [t |-> "i", v |-> 1000],
+               [t |-> "h", v |-> 255]}
+(* histories: a formatter rendered, given more arguments, rendered again; messages raised one after the other *)
+PHs == <<LB, RB>>
+HFmts == {<<>>, PHs, <<A>> \o PHs, PHs \o PHs, <<LB>>, PHs \o <<RB>>}
+HArgVals == {<<120>>, PHs}
+HItemVals == {[t |-> "s", v |-> <<A, 98>>], [t |-> "i", v |-> 255], [t |-> "i", v |-> 7], [t |-> "h", v |-> 255], [t |-> "h", v |-> 9]}
 =============================================================================
